@@ -104,8 +104,14 @@ def generate(rng, tier):
     if rng.random() < 0.6:          # framing does not depend on signal content: keep most runs cheap
         el["T"] = rng.choice([1, 2])
         el["B"] = rng.choice([4, 8])
-    be = W.gen_backend(rng, ant, el)
-    if rng.random() < 0.45:
+    # SCALE: blocks of more than 2**20 samples with a channel count that is not a power of two (slab-wise or chunked
+    # writers that only engage beyond some block size, and their remainder handling)
+    wide = rng.random() < (0.03 if tier == "quick" else 0.08)
+    if wide:
+        el["T"] = rng.choice([1, 2])
+        el["B"] = rng.choice([64, 26, 32, 64])
+    be = W.gen_backend(rng, ant, el, wide=wide)
+    if rng.random() < 0.45 and not wide:
         # block sizes that are multiples of 512 bytes, as real DIRECTIO recordings have: there blimpy's
         # padding convention (pad the file offset) and the format's (pad the header) coincide on every block
         bps = 2 * ant["pols"] * el["bits"] // 8
@@ -117,9 +123,9 @@ def generate(rng, tier):
             be["block_size"] = be["spb"] * ant["n_ant"] * be["num_chans"] * bps
             be["num_subblocks"] = rng.randint(1, min(w, 6))
     ops = []
-    for _ in range(rng.choice([1, 1, 2, 3])):
+    for _ in range(rng.choice([1, 1, 2, 3]) if not wide else 1):
         hdr = {"kind": "default"} if rng.random() < 0.2 else gen_header(rng)
-        op = {"op": "record", "num_blocks": rng.choice([1, 2, 3, 4, 5, 6]), "header": hdr,
+        op = {"op": "record", "num_blocks": rng.choice([1, 2, 3, 4, 5, 6]) if not wide else rng.choice([1, 2, 3]), "header": hdr,
               "template": rng.random() < 0.3, "digitize": rng.random() < 0.7, "listings": gen_listings(rng, 3),
               "reuse_dict": rng.random() < 0.3}
         if rng.random() < 0.15:
@@ -130,7 +136,7 @@ def generate(rng, tier):
         if ops and rng.random() < 0.35:
             op["same_stem"] = True
         ops.append(op)
-        if not op.get("fault") and rng.random() < 0.25:
+        if not op.get("fault") and rng.random() < 0.25 and not wide:
             # a recording made *onto* the one just written (from_data): its files are recordings too
             ops.append({"op": "inject_onto", "num_blocks": rng.choice([1, 2, op["num_blocks"], op["num_blocks"] + 2]),
                         "header": {"kind": "user", "cards": {}} if rng.random() < 0.5 else gen_header(rng, n_pad=rng.choice([0, 1, 5])),
